@@ -6,12 +6,17 @@ PID = "C27"
 RULE = ("Built with open-coroutine-core's `io_uring` feature (works on this kernel); one process per case: 1-32 coroutine callers (+ one plain-thread caller in a third of the cases) each issue 8-40 operations through the core entry points: "
         "pwrite of a unique block at a unique offset + pread back, send + recv of a unique 8-byte tag on an own socketpair, and operations that must complete negatively (pwrite through a read-only descriptor -> EBADF, recv on a regular file -> ENOTSOCK, mkdirat of an existing directory -> EEXIST, mkdirat below /sys and pwrite to a write-sealed memfd -> whatever errno the native call reports, e.g. EPERM). "
         "Oracle per call: own byte count and own data (somebody else's data = cross-delivery), -1 with exactly the expected errno; a caller still blocked 5 s after the last completion anybody received = lost completion. "
+        "One operation in 16 sends with a 300 ms send timeout (completes at once) and then receives data that only arrives after 600 ms: what the finished call left behind must not end the next one. "
+        "Every sixth case lets caller 0 begin with a receive that runs into its own 20 ms SO_RCVTIMEO (on a socket pair of its own): all later calls of that caller must still return their own results. "
         "Every fourth case forces the submit/register window of the plain-thread caller open with the `uring:after_submit` pause hook (80 ms). Distinct = (callers, threads, ops, forced).")
 
 def pol(case, rc, timed_out, tail):
     if timed_out:
         return ("inconclusive", "harness/timeout", tail[-300:])
     if rc is not None and rc != 0:
+        d = case.desc or {}
+        if "runs into its timeout" in str(d.get("first_call_of_caller_0", "")) and "previous token was not retrieved" in tail:
+            return ("violated", f"{PID}/process-died/call-after-a-timed-out-call-finds-the-callers-wait-slot-taken", f"rc={rc} {tail[-500:]}")
         return ("violated", f"{PID}/process-died", f"rc={rc} {tail[-500:]}")
     return vlib.default_crash_policy(case, rc, timed_out, tail)
 
